@@ -283,7 +283,7 @@ def jobs(tier):
           Job("regions_fixed_3_classes", job_regions_fixed, dict(n=3, classes=([3, 12, 31] if T else [3, 31])), cost=60, timeout_s=3400),
           Job("alloc_aw5_f2", job_alloc, dict(aw=5, with_io=False, nfixed=2), cost=40, timeout_s=3400),
           Job("alloc_aw5_io_f1", job_alloc, dict(aw=5, with_io=True, nfixed=1), cost=40, timeout_s=3400),
-          Job("decoder_dw32", job_decoder, dict(dw=32), cost=5), Job("decoder_dw64", job_decoder, dict(dw=64), cost=5),
+          Job("decoder_dw32", job_decoder, dict(dw=32), cost=5, timeout_s=420), Job("decoder_dw64", job_decoder, dict(dw=64), cost=5, timeout_s=420),
           Job("decoder_dw32_enumerated_sizes", job_decoder, dict(dw=32, enum_sizes=True), cost=5), Job("decoder_dw64_enumerated_sizes", job_decoder, dict(dw=64, enum_sizes=True), cost=5),
           Job("locations_base", job_locs, dict(kind="base"), cost=20, timeout_s=3400), Job("locations_irq", job_locs, dict(kind="irq"), cost=20, timeout_s=3400),
           Job("locations_csr", job_locs, dict(kind="csr"), cost=20, timeout_s=3400),
